@@ -24,6 +24,18 @@
       (pure isometries, also flagged daggers of unitaries), measurements (destructive or not,
       overriding bits or not), discards, stochastic classical gates and swaps evaluates — without
       error — to a trace-preserving map; `tp_then`, `tp_tensor`; `distribution_normalised`.
+    * the `mixed=True` flag on circuits WITHOUT mixed boxes, whatever `is_mixed` says
+      (`eval_mixed_flag`): the mixed evaluation of a well-typed circuit of classical gates on bits
+      (Bits, ClassicalGate, Copy, Match, weights, flagged daggers), quantum boxes on qubits, pure
+      scalars and swaps — bits and qubits interleaved in any way, or never on the same layer, as
+      in `(Bits(1) >> flip >> marginal) @ (Ket(0) >> H)` for which `is_mixed` is False — is
+      `a ⊗ ū ⊗ u` (`CQMap.hybrid`): `a` the plain evaluation of the classical part over the bit
+      wires, read as it is (a diagonal classical-quantum map, `double_is_classical_tensor_pure`),
+      `u` the plain evaluation of the quantum part over the qubit wires, doubled.  It is NOT a
+      function of the plain evaluation `a·u` of the whole circuit (`flag_is_not_a_wrapper`).
+      `double_then`, `double_tensor`: such maps are closed under `≫` and `⊗`;
+      `eval_flag_false_not_mixed`: without the flag a circuit that is not mixed is contracted
+      as a plain tensor;
   NOT proved (kept below as `Prop`s that no theorem claims; checked by the oracle and the
   correspondence on every run):
     * `C12_counts_glue`: `get_counts()`/`measure()` glue (`init_and_discard`, reading the array) —
@@ -36,6 +48,7 @@
   a commutative star-ring (the theorems are not about it in particular).
 -/
 import Proofs.CQ
+import Proofs.CQSplit
 import Mathlib.NumberTheory.Zsqrtd.GaussianInt
 
 namespace DV.C12
@@ -102,6 +115,55 @@ theorem eval_pure_vs_mixed (c : Circuit R) (hdom : allQ c.dom) (hWT : WT c.dom c
   refine ⟨⟨_, ?_, rfl⟩, m, ?_, hm2⟩
   · simp [Circuit.eval, hm]
   · simp [Circuit.eval, hm1]
+
+/-! ## the `mixed=True` flag on circuits without mixed boxes -/
+
+/-- The classical-quantum map `a ⊗ ū ⊗ u` ("double" with a classical part): its entries. -/
+theorem double_entry (d e : CQTy) (a u : Mat R) (c q p c' q' p' : Nat) :
+    (CQMap.hybrid d e a u).f c q p c' q' p' = a.f c c' * (star (u.f q q') * u.f p p') := rfl
+
+/-- It is the tensor of classical-quantum maps (cqmap.py:163-186) of the classical map `a`
+    (`CQMap.classical`: the classical part read as it is) and the doubled `u` (`CQMap.pure`). -/
+theorem double_is_classical_tensor_pure (dc ec dq eq : List Nat) (a u : Mat R) :
+    CQMap.hybrid ⟨dc, dq⟩ ⟨ec, eq⟩ a u ≈ (CQMap.classical dc ec a).tensor (CQMap.pure dq eq u) :=
+  CQMap.hybrid_eq_classical_tensor_pure dc ec dq eq a u
+
+/-- Such maps compose part by part … -/
+theorem double_then (d m e : CQTy) (a u a' u' : Mat R) (ha : a.c = m.C) (hu : u.c = m.Q) :
+    (CQMap.hybrid d m a u).comp (CQMap.hybrid m e a' u') =
+      CQMap.hybrid d e (a.comp a') (u.comp u') :=
+  CQMap.hybrid_comp d m e a u a' u' ha hu
+
+/-- … and their tensor (through the block permutation of `CQMap.tensor`, which sorts the
+    classical wires of both factors before the quantum ones) is taken part by part. -/
+theorem double_tensor (d e d' e' : CQTy) (a u a' u' : Mat R)
+    (har : a'.r = d'.C) (hac : a'.c = e'.C) (hur : u'.r = d'.Q) (huc : u'.c = e'.Q) :
+    (CQMap.hybrid d e a u).tensor (CQMap.hybrid d' e' a' u') =
+      CQMap.hybrid (d.tensor d') (e.tensor e') (a.kron a') (u.kron u') :=
+  CQMap.hybrid_tensor d e d' e' a u a' u' har hac hur huc
+
+/-- One layer `id ⊗ box ⊗ id` around a box that is not mixed, between ANY types. -/
+theorem layer_classical_times_doubled (l r : WTy) (b : LBox R) (hb : b.NonMixed) :
+    layerMap l b r ≈
+      CQMap.hybrid (F (l ++ b.dom ++ r)) (F (l ++ b.cod ++ r)) (layerC l b r) (layerQ l b r) :=
+  layer_split l r b hb.split
+
+/-- **eval_mixed_flag**: `eval(mixed=True)` (circuit.py:251-253) of a well-typed circuit whose
+    boxes are not mixed (`LBox.NonMixed`: classical gates on bits, quantum boxes on qubits, pure
+    scalars, swaps) is the classical part `a = evalClassical` read as it is next to the doubled
+    quantum part `u = evalQuantum` — there is no hypothesis on `is_mixed`: the flag alone selects
+    the classical-quantum functor, also when bits and qubits never share a layer. -/
+theorem eval_mixed_flag (c : Circuit R) (hWT : WT c.dom c.boxes)
+    (hb : ∀ ob ∈ c.boxes, ob.2.NonMixed) :
+    ∃ m, c.eval true = .ok (.cq m) ∧
+      m ≈ CQMap.hybrid (F c.dom) (F c.cod) c.evalClassical c.evalQuantum := by
+  obtain ⟨m, hm1, hm2⟩ := Circuit.eval_split c hWT (fun ob hob => (hb ob hob).split)
+  exact ⟨m, by simp [Circuit.eval, hm1], hm2⟩
+
+/-- Without the flag, a circuit that is not mixed is contracted as a plain tensor. -/
+theorem eval_flag_false_not_mixed (c : Circuit R) (hm : c.isMixed = false) :
+    c.eval false = .ok (.tensor (dims c.dom) (dims c.cod) c.evalPure) := by
+  simp [Circuit.eval, hm]
 
 /-! ## Born rule, discarding -/
 
@@ -355,6 +417,51 @@ example : ∃ m, exPure.evalMixed = .ok m ∧ m ≈ CQMap.pure [] [2] exPure.eva
   · exact quantum_box_pure _ _ _ _ allQ_qubit allQ_qubit rfl rfl
   · exact scalar_box_pure _ _
   · exact quantum_box_pure _ _ _ _ allQ_qubit allQ_qubit rfl rfl
+
+/-- an (unnormalised: times 4) stochastic gate, and the marginal. -/
+def flip : Mat G := ⟨2, 2, fun i j => if i = j then 3 else 1⟩
+def marginal : Mat G := ⟨2, 1, fun _ _ => 1⟩
+
+theorem allB_nil : allB ([] : WTy) := fun _ h => by cases h
+theorem allB_bit : allB [Wire.bit 2] := fun w h => ⟨2, by simpa using h⟩
+
+/-- `(Bits(1) >> flip >> marginal) @ (psi >> Y)`: a closed classical circuit next to a pure
+    quantum one; bits and qubits never share a layer, `is_mixed` is False. -/
+def exJuxt : Circuit G :=
+  ⟨[], [(0, ⟨false, .classical [] [.bit 2] bitsOne⟩),
+        (0, ⟨false, .classical [.bit 2] [.bit 2] flip⟩),
+        (0, ⟨false, .classical [.bit 2] [] marginal⟩),
+        (0, ⟨false, .quantum [] [.qubit 2] psi⟩),
+        (0, ⟨false, .quantum [.qubit 2] [.qubit 2] Y⟩)]⟩
+
+theorem exJuxt_not_mixed : exJuxt.isMixed = false := by decide
+
+theorem exJuxt_nonMixed : ∀ ob ∈ exJuxt.boxes, ob.2.NonMixed := by
+  intro ob hob
+  simp only [exJuxt, List.mem_cons, List.not_mem_nil, or_false] at hob
+  rcases hob with rfl | rfl | rfl | rfl | rfl
+  · exact .classical _ _ _ _ allB_nil allB_bit rfl rfl
+  · exact .classical _ _ _ _ allB_bit allB_bit rfl rfl
+  · exact .classical _ _ _ _ allB_bit allB_nil rfl rfl
+  · exact .quantum _ _ _ _ allQ_nil allQ_qubit rfl rfl
+  · exact .quantum _ _ _ _ allQ_qubit allQ_qubit rfl rfl
+
+/-- `eval_mixed_flag` applies to it although it is not mixed. -/
+example : ∃ m, exJuxt.eval true = .ok (.cq m) ∧
+    m ≈ CQMap.hybrid .unit (.ofQ [2]) exJuxt.evalClassical exJuxt.evalQuantum :=
+  eval_mixed_flag exJuxt ⟨rfl, rfl, rfl, rfl, rfl, trivial⟩ exJuxt_nonMixed
+
+/-- **flag_is_not_a_wrapper**.  On `exJuxt` the classical part is the weight 4, the quantum part
+    has the amplitude `2i` at outcome 0, so the mixed evaluation has the entry `4 · |2i|² = 16`
+    there; the plain evaluation of the whole circuit has `4 · 2i = 8i`: neither itself (wrapped
+    as a classical map) nor its doubled map (`|8i|² = 64`) is the mixed evaluation — the result
+    of `eval(mixed=True)` cannot be obtained from `eval()` of a circuit that is not mixed. -/
+theorem flag_is_not_a_wrapper :
+    exJuxt.evalClassical.f 0 0 = 4 ∧ exJuxt.evalQuantum.f 0 0 = ⟨0, 2⟩ ∧
+    (CQMap.hybrid .unit (.ofQ [2]) exJuxt.evalClassical exJuxt.evalQuantum).f 0 0 0 0 0 0 = 16 ∧
+    exJuxt.evalPure.f 0 0 = ⟨0, 8⟩ ∧
+    (CQMap.pure [] [2] exJuxt.evalPure).f 0 0 0 0 0 0 = 64 := by
+  refine ⟨by decide, by decide, by decide, by decide, by decide⟩
 
 /-- `discard_marginal` on a classical-quantum type with both parts non-trivial. -/
 example : ((CQMap.id (CQTy.tensor ⟨[2], [2]⟩ ⟨[3], [2]⟩) : CQMap G).comp
